@@ -24,7 +24,7 @@ import (
 )
 
 // identity kinds of a server
-var identities = []string{"genuine", "issued-by-second-ca", "foreign-ca", "self-signed", "expired", "expired-one-minute-ago", "not-yet-valid", "valid-in-one-minute", "wrong-name", "name-of-first-endpoint", "system-pool-only", "dns-name-only"}
+var identities = []string{"genuine", "issued-by-second-ca", "foreign-ca", "self-signed", "expired", "expired-one-minute-ago", "not-yet-valid", "valid-in-one-minute", "wrong-name", "name-of-first-endpoint", "system-pool-only", "dns-name-only", "genuine-no-eku", "issued-by-client-cert-issuer"}
 var protocols = []string{"tls12+", "tls12-only", "tls13-only", "tls10-11-only"}
 var clientPolicies = []string{"none", "request", "require-any", "require-verify", "require-any-other-ca-hint"}
 
@@ -38,7 +38,7 @@ type variant struct {
 // matches the endpoint address, is currently valid and speaks TLS >= 1.2.
 func (v variant) genuine(bundle string) bool {
 	switch v.Identity {
-	case "genuine":
+	case "genuine", "genuine-no-eku":
 	case "issued-by-second-ca":
 		if bundle == "one-file-one-ca" {
 			return false
@@ -66,7 +66,7 @@ func main() {
 	defer os.RemoveAll(sysDir)
 	ev.Main("C18", "exploration", func(r *ev.Run) {
 		defer os.RemoveAll(sysDir)
-		r.Rule("real gRPC/TLS servers on 127.0.0.2..4 (one shared port) whose identity is one of {issued by a configured CA (first or second bundle CA), foreign CA, self-signed, expired, not yet valid, valid for another address, valid for the FIRST endpoint's address only, issued by a CA trusted only via SSL_CERT_FILE (the process system pool), DNS name only}, protocol range in {>=1.2, 1.2 only, 1.3 only, 1.0-1.1 only}, client-certificate policy in {none, request, require any, require and verify, require any with another CA advertised}; bundles of 1 or 2 files holding 1..3 CA certificates; endpoint lists of 1..3 with genuine and impostor servers at every position. Each server records its handshakes (version, peer certificates) and the RPCs it handled. Beside that, one long-lived signer whose client certificate lapses 2..3 s after construction signs before and after the lapse against a genuine server that requests a client certificate. Violations: an RPC handled by a non-genuine server or below TLS 1.2; the RA presenting no or another client certificate to a genuine server that asks for one; Sign failing although a genuine endpoint follows impostors; Sign succeeding with an impostor's certificates. distinct_nontrivial = distinct (bundle, endpoint list, per-server variant) configurations judged")
+		r.Rule("real gRPC/TLS servers on 127.0.0.2..4 (one shared port) whose identity is one of {issued by a configured CA (first or second bundle CA), foreign CA, self-signed, expired, not yet valid, valid for another address, valid for the FIRST endpoint's address only, issued by a CA trusted only via SSL_CERT_FILE (the process system pool), issued by the CA of the RA's own client certificate (which is in the client certificate file, not in the bundle), DNS name only, genuine without an extended-key-usage extension}, protocol range in {>=1.2, 1.2 only, 1.3 only, 1.0-1.1 only}, client-certificate policy in {none, request, require any, require and verify, require any with another CA advertised}; bundles of 1 or 2 files holding 1..3 CA certificates; endpoint lists of 1..3 with genuine and impostor servers at every position. Each server records its handshakes (version, peer certificates) and the RPCs it handled. Beside that, one long-lived signer whose client certificate lapses 2..3 s after construction signs before and after the lapse against a genuine server that requests a client certificate. Violations: an RPC handled by a non-genuine server or below TLS 1.2; the RA presenting no or another client certificate to a genuine server that asks for one; Sign failing although a genuine endpoint follows impostors; Sign succeeding with an impostor's certificates. distinct_nontrivial = distinct (bundle, endpoint list, per-server variant) configurations judged")
 		r.Assume("no DNS in the sandbox: endpoint names are IP addresses, matched against IP SANs", "chain validity uses the real clock; margins of 24 h and of one minute", "Retries: 1")
 		gen.Pool()
 		dir, err := os.MkdirTemp("", "tls")
@@ -99,8 +99,14 @@ func main() {
 		lwg.Add(1)
 		go func() { defer lwg.Done(); lapsingClientCert(r, dir, ca1) }()
 		defer lwg.Wait()
-		client := ca1.Issue(caserver.Leaf{CN: "ra-client", Client: true})
+		// the RA's client certificate comes from a CA of its own, which is NOT among the configured server CAs; the
+		// certificate file holds the chain (leaf first, then that CA), as deployments with an intermediate do
+		clientIssuer := caserver.NewCA("verif client-certificate issuer")
+		client := clientIssuer.Issue(caserver.Leaf{CN: "ra-client", Client: true})
 		clientCert, clientKey := caserver.WritePEM(dir, "client", client)
+		if pemLeaf, rerr := os.ReadFile(clientCert); rerr == nil {
+			os.WriteFile(clientCert, append(append(pemLeaf, '\n'), clientIssuer.PEM...), 0o600)
+		}
 		ips := []string{"127.0.0.2", "127.0.0.3", "127.0.0.4"}
 		n := r.Pick(600, 6000)
 		for i := 0; i < n; i++ {
@@ -130,7 +136,7 @@ func main() {
 			rec := caseRec{Bundle: bname, Endpoints: list, Variants: vars}
 			r.Eval(1)
 			r.Guard(c, "tls configuration", rec, func() {
-				judge(r, c, rec, bundles[bname], clientCert, clientKey, client, list, vars, ca1, ca2, foreign, sysCA, clientCA)
+				judge(r, c, rec, bundles[bname], clientCert, clientKey, client, list, vars, ca1, ca2, foreign, sysCA, clientCA, clientIssuer)
 			})
 			if i < 3 {
 				r.Sample(rec)
@@ -248,7 +254,7 @@ func lapsingClientCert(r *ev.Run, dir string, ca *caserver.CA) {
 	})
 }
 
-func judge(r *ev.Run, c *ev.Case, rec caseRec, bundle []string, clientCert, clientKey string, client tls.Certificate, list []string, vars []variant, ca1, ca2, foreign, sysCA, clientCA *caserver.CA) {
+func judge(r *ev.Run, c *ev.Case, rec caseRec, bundle []string, clientCert, clientKey string, client tls.Certificate, list []string, vars []variant, ca1, ca2, foreign, sysCA, clientCA, clientIssuer *caserver.CA) {
 	now := time.Now()
 	var confs []*tls.Config
 	for k, v := range vars {
@@ -277,6 +283,10 @@ func judge(r *ev.Run, c *ev.Case, rec caseRec, bundle []string, clientCert, clie
 			cert = ca1.Issue(caserver.Leaf{CN: "crypki", IPs: []string{list[0]}})
 		case "system-pool-only":
 			cert = sysCA.Issue(caserver.Leaf{CN: "crypki", IPs: []string{ip}})
+		case "genuine-no-eku":
+			cert = ca1.Issue(caserver.Leaf{CN: "crypki", IPs: []string{ip}, NoEKU: true})
+		case "issued-by-client-cert-issuer":
+			cert = clientIssuer.Issue(caserver.Leaf{CN: "crypki", IPs: []string{ip}})
 		case "dns-name-only":
 			cert = ca1.Issue(caserver.Leaf{CN: ip, DNS: []string{"crypki.example"}})
 		}
@@ -303,7 +313,7 @@ func judge(r *ev.Run, c *ev.Case, rec caseRec, bundle []string, clientCert, clie
 			}
 		}
 		pool := x509.NewCertPool()
-		pool.AddCert(ca1.Cert)
+		pool.AddCert(clientIssuer.Cert)
 		switch v.Client {
 		case "request":
 			conf.ClientAuth = tls.RequestClientCert
